@@ -683,6 +683,11 @@ func buildResponse(sc *Scenario, v *BackendView) *builtResponse {
 				e["code"] = connectRawCode(b.CodeRaw)
 				body, _ = json.Marshal(e)
 			}
+			if b.CompressError && comp != "" {
+				// the Connect protocol allows a compressed error body (connect-go never sends one)
+				out.Header.Set("Content-Encoding", comp)
+				body = compressBytes(comp, body)
+			}
 			out.Body = body
 			return out
 		}
